@@ -474,13 +474,28 @@ fn random_local(rng: &mut Rng) -> i128 {
     }
 }
 
+impl VTimeExec {
+    fn fresh() -> VTimeExec {
+        VTimeExec
+    }
+}
+
+/// Every op catches the panics its `_or_die` calls are specified to raise inside the op itself, so
+/// every op may run while the thread is unwinding (track traits, `unwind.rs`): nothing in C14 depends
+/// on `std::thread::panicking()`.
+impl crate::unwind::Probe for VTimeExec {
+    fn unwind_safe(&self, _w: &[&str]) -> bool {
+        true
+    }
+}
+
 impl Family for VTimeFamily {
     fn name(&self) -> &'static str {
         "vtime"
     }
 
     fn new_exec(&self) -> Box<dyn Exec> {
-        Box::new(VTimeExec)
+        crate::unwind::UnwindExec::boxed(VTimeExec::fresh)
     }
 
     /// Every special local time x every base time of interest x {own voucher,
@@ -598,6 +613,9 @@ impl Family for VTimeFamily {
                     ops.push(format!("{} {} {} {}", op, ns, base, v));
                 }
             }
+        }
+        if rng.chance(1, 5) {
+            ops = crate::unwind::sprinkle(rng, ops, 1, 2, |_| true);
         }
         ops
     }
